@@ -19,12 +19,13 @@ Fixpoint json_eq (a b : json) {struct a} : bool :=
          | _, _ => false
          end) x y
   | JObj x, JObj y =>
-      (length x =? length y)%nat &&
+      (* every member of x has an equal member of the same name in y, and y has no other names *)
       (fix go (x : list (str * json)) : bool :=
          match x with
          | [] => true
          | (k, v) :: x' => match find_assoc k y with Some v' => json_eq v v' && go x' | None => false end
          end) x
+      && forallb (fun k => existsb (str_eqb k) (map fst x)) (map fst y)
   | _, _ => false
   end.
 
